@@ -75,13 +75,17 @@ pub struct Duration { pub ms: u64 }
 impl Duration {
     pub fn from_millis(ms: u64) -> (r: Self) ensures r.ms == ms { Duration { ms } }
 }
-pub struct HeartBeat { pub period_ms: Option<u64> }
+pub struct HeartBeat { pub period_ms: Option<u64>, pub resets: Ghost<nat> }
 impl HeartBeat {
-    pub fn never() -> (r: Self) ensures r.period_ms is None { HeartBeat { period_ms: None } }
+    pub fn never() -> (r: Self) ensures r.period_ms is None, r.resets@ == 0 { HeartBeat { period_ms: None, resets: Ghost(0) } }
     pub fn new(period: Duration) -> (r: Self)
         requires period.ms > 0,      // tokio::time::interval(period) panics when period is zero
-        ensures r.period_ms == Some(period.ms),
-    { HeartBeat { period_ms: Some(period.ms) } }
+        ensures r.period_ms == Some(period.ms), r.resets@ == 0,
+    { HeartBeat { period_ms: Some(period.ms), resets: Ghost(0) } }
+    /// not present in the repository today; modelled so that a change which postpones the heartbeat is decided rather than undecided
+    pub fn reset(&mut self) ensures final(self).period_ms == old(self).period_ms, final(self).resets@ == old(self).resets@ + 1 {
+        proof { self.resets@ = self.resets@ + 1; }
+    }
 }
 
 pub struct TransportS { pub sent: Ghost<Seq<Frame>>, pub failures: Ghost<nat> }
@@ -246,6 +250,7 @@ impl ConnectionEngine {
 //@@ spec
     ensures
         final(self).connection.st == old(self).connection.st && final(self).outgoing_session_frames == old(self).outgoing_session_frames,
+        final(self).heartbeat.period_ms == old(self).heartbeat.period_ms,
         !(old(self).connection.st is Opened || old(self).connection.st is CloseReceived) ==> r is Err && final(self).transport.sent@ == old(self).transport.sent@
             && final(self).transport.failures@ == old(self).transport.failures@,                                          // [C12.no-session-frame-outside-open] before the open exchange completes and after the local Close no session frame is written
         r is Ok ==> final(self).transport.sent@ == old(self).transport.sent@.push(Frame { channel: frame.channel, body: lifted(frame.body) }),   // [C06.engine.lift] the session frame goes out on its own channel with its performative (and payload) unchanged [C01.engine.lift] [C11.engine.channel]
@@ -260,7 +265,7 @@ impl ConnectionEngine {
     ensures
         !(old(self).connection.st is Opened) ==> r is Err,                                                              // [C12.session-frame-only-when-opened] a session-level frame from the peer outside the Opened state is an error (closes the connection), it is not forwarded
         final(self).connection.st == old(self).connection.st && final(self).transport == old(self).transport
-            && final(self).outgoing_session_frames == old(self).outgoing_session_frames,
+            && final(self).outgoing_session_frames == old(self).outgoing_session_frames && final(self).heartbeat == old(self).heartbeat,
 //@@ end
 
 //@@ fn file=fe2o3-amqp/src/connection/engine.rs impl=`~impl<Io,C>ConnectionEngine<Io,C>whereIo:AsyncRead+AsyncWrite+std::fmt::Debug+SendBound+Unpin+'static,C:endpoint::Connection<State=ConnectionState>` name=on_incoming
@@ -286,6 +291,7 @@ impl ConnectionEngine {
         frame.body is Close && (old(self).connection.st is CloseSent || old(self).connection.st is Discarding) ==>
             final(self).connection.st is End && final(self).transport.sent@ == old(self).transport.sent@
             && (frame.body->Close_0.error is None ==> r == Ok::<Running, ConnectionInnerError>(Running::Stop)),         // [C12.close-completed] the peer's answer to our close ends the connection: nothing more is written
+        !(frame.body is Open) && !(frame.body is Close) ==> final(self).heartbeat == old(self).heartbeat,                                         // [C17.heartbeat.not-postponed-by-incoming] receiving frames never re-arms or postpones the heartbeat: the peer's idle time-out is about what WE send
         frame.body is Open && r is Ok && !(old(self).connection.st is Discarding) ==> final(self).heartbeat.period_ms == (match frame.body->Open_0.idle_time_out { Some(ms) => if ms == 0 { None::<u64> } else { Some(ms as u64) }, None => None::<u64> }),   // [C17.heartbeat.from-peer-open] heartbeats are armed from the peer's idle-time-out; 0 or unset means none [C15.open.zero-idle-timeout] (and never a zero period, which would panic the timer)
 //@@ entry
         let ghost mut smid: Seq<Frame> = Seq::empty();
